@@ -68,6 +68,17 @@ fn sym_foreign(policy: usize, mode: usize, r: &mut Rng) -> Case8 {
     Case8 { c, orig }
 }
 
+/// a receiver whose token was renewed: it derived keys with the sender's nonce once and has derived new ones since;
+/// chunks secured under the replaced keys (whatever token id they carry) are foreign now
+fn sym_after_renew(policy: usize, mode: usize, r: &mut Rng) -> Case8 {
+    let mut chunks = Vec::new();
+    for t in [b"MSG", b"CLO", b"MSG"] { let body = rb(r, 30, 0); chunks.push(sym_original(policy, mode, t, &body, 1 + r.below(1000) as u32)); }
+    let orig = vec![false; chunks.len()];
+    let mut c = mk_case(policy, mode, chunks, &format!("sym-{}-{}-keys-of-the-renewed-token", pol_name(policy), mode_name(mode)));
+    c.has_keys = true; c.reset_policy = true; c.pre_nonce = Some(11); c.peer_nonce = 12 + r.below(200) as u8;
+    Case8 { c, orig }
+}
+
 /// a receiver that has a Sign / SignAndEncrypt policy and mode but has not derived keys yet (a client between its
 /// OPN request and the response): it can authenticate nothing, so every MSG / CLO chunk -- secured by the peer,
 /// unsecured, modified -- must be rejected
@@ -176,6 +187,7 @@ impl Property for P {
                 }
                 v.push(sym_foreign(policy, mode, &mut r));
                 v.push(sym_keyless(policy, mode, &mut r));
+                v.push(sym_after_renew(policy, mode, &mut r));
                 let k = ((policy + mode) % 3) as u64;
                 let c = sym_sweep(policy, mode, (policy + 2 * mode) % 3, &mut r); v.push(with_pre(c, k, &mut r));
                 if tier == "thorough" { let c = sym_foreign(policy, mode, &mut r); v.push(with_pre(c, 3 - k, &mut r)); }
@@ -190,6 +202,7 @@ impl Property for P {
         let policy = 1 + r.below(5) as usize;
         match r.below(8) {
             0 | 1 | 2 => { let c = sym_sweep(policy, 1 + r.below(2) as usize, r.below(3) as usize, r); if r.chance(1, 3) { let k = r.below(4); with_pre(c, k, r) } else { c } }
+            3 if r.chance(1, 4) => sym_after_renew(policy, 1 + r.below(2) as usize, r),
             3 if r.chance(1, 3) => { let c = sym_keyless(policy, 1 + r.below(2) as usize, r); if r.chance(1, 2) { let k = r.below(4); with_pre(c, k, r) } else { c } }
             3 => { let c = sym_foreign(policy, 1 + r.below(2) as usize, r); if r.chance(1, 2) { let k = r.below(4); with_pre(c, k, r) } else { c } }
             _ => {
